@@ -1007,3 +1007,17 @@ def b_seq_nc(tier, rnd):
 def b_seq_nc_stop(tier, rnd):
     return {"rule": "None and containers of 0..4 seeded notes x argument channel",
             "cases": [(_rec_sequencer(), nc, c) for nc in _seq_ncs(rnd) for c in (1, 7)]}
+
+
+@battery("bar_place")
+def b_bar_place(tier, rnd):
+    import copy
+    from mingus.containers.bar import Bar
+    from mingus.containers.note_container import NoteContainer
+    cases = []
+    for (b,) in b_bars_filled(tier, rnd)["cases"][::3]:
+        for v in (1, 2, 4, 8, 16, 3, 6, 1.5, 5, 12):
+            for content in (None, NoteContainer(["C", "E"])):
+                cases.append((copy.deepcopy(b), content, v))
+    return {"rule": "every third intermediate state of the 'bars_filled' battery x 10 values x {rest, container}",
+            "cases": cases}
